@@ -166,7 +166,8 @@ fn tampered(out: &mut Out, secp: &Secp256k1<All>, class: &str, tx: &Transaction,
     let name = format!("tamper_{}_rejected", class);
     out.s(&name, real.starts_with("err"), || format!("{} -> {}", det(tx, utxos), real));
     if let Some(e) = expect {
-        out.s(&format!("tamper_{}_variant", class), real == e, || format!("{} -> {} (expected {})", det(tx, utxos), real, e));
+        // the property demands rejection; WHICH error is today's behaviour (pinned, also compared with the model by K)
+        out.pin(&format!("tamper_{}_variant", class), real == e, || format!("{} -> {} (expected {})", det(tx, utxos), real, e));
     }
 }
 
